@@ -85,8 +85,8 @@ func c08CssHashImpl(c Case) []int64 {
 }
 
 // fragments for the exhaustive small-scope enumeration (each is one or two tokens)
-var c08CssFragsFull = []string{"a", "{", "}", ";", ":", "*", "@media", "@x", "(", ")", ",", " ", "--v", "!", "/**/", "[", "]", "@font-face", "1", "\"s\"", "f(", "<!--"}
-var c08CssFragsCore = []string{"a", "{", "}", ";", ":", "*", "@media", "@x", "(", ")", " ", "--v", "@page"}
+var c08CssFragsFull = []string{"a", "{", "}", ";", ":", "*", "@media", "@x", "(", ")", ",", " ", "--v", "!", "/**/", "[", "]", "@font-face", "1", "\"s\"", "f(", "<!--", "#b", "&", "::b"}
+var c08CssFragsCore = []string{"a", "{", "}", ";", ":", "*", "@media", "@x", "(", ")", " ", "--v", "@page", "[", "#b"}
 
 func c08AllFragSeqs(frags []string, k int, f func([]byte)) {
 	var rec func(cur []byte, n int)
@@ -290,10 +290,27 @@ func (g *c08SheetGen) genSelector(nested bool) []c07CssTok {
 				vals = append(vals, c08WsTok())
 			}
 		}
-		// compound selector (a nested ruleset is only recognised after an identifier or a delimiter)
+		// compound selector; a nested ruleset may start with an identifier, a delimiter (. & >), #id, :pseudo,
+		// ::pseudo or [attr] (Values() of nested rulesets are not compared: vals is dropped by the caller)
 		k := g.r.Intn(4)
-		if nested && i == 0 && k != 0 {
-			k = 3
+		if nested && i == 0 {
+			switch g.r.Intn(8) {
+			case 0:
+				g.text = append(g.text, '&')
+			case 1:
+				g.text = append(g.text, '>')
+				g.ws(false)
+			case 2:
+				g.text = append(g.text, ':')
+				g.text = append(g.text, c08GenSimpleIdent(g.r)...)
+				g.ws(true)
+			case 3:
+				g.text = append(g.text, ':', ':')
+				g.text = append(g.text, c08GenSimpleIdent(g.r)...)
+				g.ws(true)
+			case 4:
+				g.text = append(g.text, "[x=\"]\"]"...)
+			}
 		}
 		switch k {
 		case 0:
@@ -871,7 +888,7 @@ func c08NestedProbes(rep *Report) {
 		return strings.Join(g, " ")
 	}
 	// 1. a nested ruleset whose selector does not start with an identifier or a delimiter
-	for _, in := range []string{"a{#b{c:d}}", "a{:hover{c:d}}", "a{[x]{c:d}}"} {
+	for _, in := range []string{"a{#b{c:d}}", "a{:hover{c:d}}", "a{[x]{c:d}}", "a{::before{c:d}}", "a{[x=\"]\"]{c:d}}", "a{&b{c:d}}", "a{.b{c:d}}", "a{>b{c:d}}"} {
 		units, _, ok := c08RunParser([]byte(in), false)
 		want := []css.GrammarType{css.BeginRulesetGrammar, css.BeginRulesetGrammar, css.DeclarationGrammar, css.EndRulesetGrammar, css.EndRulesetGrammar, css.ErrorGrammar}
 		bad := !ok || len(units) != len(want)
